@@ -841,6 +841,9 @@ func VerifyFunction(ld *Loader, db *ContractDB, fn *ssa.Function, con *Contract)
 			x.obls = append(x.obls, ob)
 		}
 		x.frameObligations(f, ex)
+		tt := tTrue
+		x.addObl(&Obligation{Name: fmt.Sprintf("%s/cover:exit", x.fnKeyShort()), Kind: "cover-exit", Tags: con.Tags, Func: x.fnKey,
+			mark: x.b.Mark(), guard: ex.st.reach, ground: &tt, mustSat: true, Src: "exit at " + x.posStr(ex.pos) + " reachable under the assumptions made on the way", hyps: scopeOf(ex.st)})
 	}
 	if len(f.exits) == 0 {
 		x.note("function has no normal exit")
@@ -1372,6 +1375,11 @@ func (x *Exec) cutLoop(f *Frame, li *loopInfo) {
 		for _, inv := range li.spec.Invariants {
 			x.assumeSpec(st.reach, inv.Expr, env, fmt.Sprintf("loop %d invariant %s", li.ordinal, inv.Src))
 		}
+	}
+	if f.top {
+		tt := tTrue
+		x.addObl(&Obligation{Name: fmt.Sprintf("%s/cover:loop%d", x.fnKeyShort(), li.ordinal), Kind: "cover", Tags: x.safetyTags(), Func: x.fnKey,
+			mark: x.b.Mark(), guard: st.reach, ground: &tt, mustSat: true, Src: "loop head reachable with its invariants", hyps: scopeOf(st)})
 	}
 	// implicit loop frame: objects that existed before the loop and are not named in the loop's
 	// modifies clause keep their content (assumed at the head, proved on every back edge)
